@@ -34,6 +34,7 @@ type WebPParams struct {
 	Damage   string   // "", "flag-without-chunk", "iccp-cut"
 	Inner    WebPKind // image data chunk following (VP8 or VP8L)
 	Trailing int      // number of EXIF/XMP-style chunks after the image data
+	AlphLen  int      // > 0: an ALPH chunk of this size before the VP8 chunk of an extended file
 	BodyLen  int64
 }
 
@@ -91,6 +92,16 @@ func DrawWebP(t *tape.Tape, kind int, withICC int, iccSizes []int, allowDamage b
 		}
 		p.Inner = WebPKind(t.Intn(2))
 		p.Trailing = t.Intn(3)
+		// lossy image data with a separate alpha plane: an ALPH chunk (pixel data,
+		// possibly large) precedes the VP8 chunk
+		if p.Inner == WebPVP8 && p.Flags&0x10 != 0 {
+			switch t.Pick(2, 2, 1) {
+			case 1:
+				p.AlphLen = 1 + t.Intn(5000)
+			case 2:
+				p.AlphLen = 66000 + t.Intn(1200000)
+			}
+		}
 	}
 	switch t.Pick(2, 4, 2) {
 	case 1:
@@ -231,6 +242,12 @@ func BuildWebP(p WebPParams) *File {
 			w.u32le(6)
 			w.zeros(6)
 		}
+		if p.AlphLen > 0 {
+			w.str("ALPH")
+			w.u32le(uint32(p.AlphLen))
+			w.u8(0) // no preprocessing, no filtering, uncompressed
+			w.zeros(p.AlphLen - 1 + p.AlphLen%2)
+		}
 		// the bitstream dimensions inside an extended file need not equal the canvas
 		imgChunk(p.Inner, 1+(p.W-1)%16383, 1+(p.H-1)%16383)
 		for i := 0; i < p.Trailing; i++ {
@@ -240,8 +257,8 @@ func BuildWebP(p WebPParams) *File {
 	tr.Fields = w.fields
 	total := int64(len(w.b)) + p.BodyLen + int64(len(trailer))
 	PutLE(w.b, riffSizeOff, 4, uint64(total-8))
-	tr.Desc = fmt.Sprintf("WebP %s %dx%d ver=%d show=%v scale=%d/%d alpha=%v flags=%#x icc=%v(%d bytes) damage=%q inner=%s body=%d",
-		p.Kind, p.W, p.H, p.Version, p.ShowFrame, p.XScale, p.YScale, p.Alpha, p.Flags, p.HasICC, len(p.ICC), p.Damage, p.Inner, p.BodyLen)
+	tr.Desc = fmt.Sprintf("WebP %s %dx%d ver=%d show=%v scale=%d/%d alpha=%v flags=%#x icc=%v(%d bytes) damage=%q inner=%s alph=%d body=%d",
+		p.Kind, p.W, p.H, p.Version, p.ShowFrame, p.XScale, p.YScale, p.Alpha, p.Flags, p.HasICC, len(p.ICC), p.Damage, p.Inner, p.AlphLen, p.BodyLen)
 	f := &File{Head: w.b, BodyLen: p.BodyLen, BodyFn: bodyByte, Truth: tr}
 	if len(trailer) > 0 {
 		tl := trailer
